@@ -19,6 +19,7 @@ vars == <<slot, child, cur, res>>
 Chain(nt) ==
   CASE nt = "assign_rhs" -> "star_expressions"
     [] nt = "star_expressions" -> "expression"
+    [] nt = "fstring_field" -> "star_expressions"
     [] nt = "star_expression" -> "expression"
     [] nt = "star_named_expression" -> "named_expression"
     [] nt = "named_expression" -> "expression"
@@ -57,6 +58,7 @@ Chain(nt) ==
 Prod(nt) ==
   CASE nt = "assign_rhs" -> {"Yield", "Yield0", "YieldFrom"}
     [] nt = "star_expressions" -> {"Tuple", "Starred"}
+    [] nt = "fstring_field" -> {"Yield", "Yield0", "YieldFrom"}
     [] nt = "star_expression" -> {"Starred"}
     [] nt = "star_named_expression" -> {"Starred"}
     [] nt = "named_expression" -> {"NamedExpr"}
@@ -85,6 +87,9 @@ Prod(nt) ==
     [] nt = "star_target" -> {"Starred"}
     [] nt = "t_atom" -> {"Name", "Attribute", "Subscript", "List", "Tuple0"}
     [] nt = "single_target" -> {"Name", "Attribute", "Subscript"}
+    [] nt = "ann_target" -> {"Name", "Attribute", "Subscript"}
+    [] nt = "literal_value" -> TargetNT["literal_value"].kinds     \* a closed list of literal forms
+    [] nt = "literal_key" -> TargetNT["literal_key"].kinds
     [] nt = "name_only" -> {"Name"}
     [] nt = "name_or_attr" -> {"Name", "Attribute"}
     [] nt = "patterns" -> {"OpenSeq"}
@@ -108,10 +113,13 @@ Init == /\ slot \in SlotIds
         /\ cur = NT(slot)
         /\ res = "run"
 
-Produce == /\ res = "run" /\ child \in Prod(cur) /\ ~Lexical(slot, child)
+Produce == /\ res = "run" /\ child \in Prod(cur) /\ ~Lexical(slot, NT(slot), child) /\ ~NeedsBlank(slot, child)
            /\ res' = "bare" /\ UNCHANGED <<slot, child, cur>>
-LexicalPars == /\ res = "run" /\ child \in Prod(cur) /\ Lexical(slot, child)
+LexicalPars == /\ res = "run" /\ child \in Prod(cur) /\ Lexical(slot, NT(slot), child)
                /\ res' = "pars" /\ UNCHANGED <<slot, child, cur>>
+(* the operand is derived but its first character would fuse with the field's brace: `{{`                   *)
+BlankSep == /\ res = "run" /\ child \in Prod(cur) /\ NeedsBlank(slot, child)
+            /\ res' = "blank" /\ UNCHANGED <<slot, child, cur>>
 (* '*' bitwise_or where the child is '*' disjunction: the star is produced here, its operand needs a group *)
 StarOperandTooLow == child = "StarredOr" /\ child \notin Prod(cur) /\ "Starred" \in Prod(cur) /\ SlotCls(slot) = "load"
 InnerGroup == /\ res = "run" /\ StarOperandTooLow
@@ -126,15 +134,16 @@ Reject == /\ res = "run" /\ child \notin Prod(cur) /\ Chain(cur) = "none"
           /\ res' = "invalid" /\ UNCHANGED <<slot, child, cur>>
 Done == res # "run" /\ UNCHANGED vars
 
-Next == Produce \/ LexicalPars \/ InnerGroup \/ Descend \/ Group \/ Reject \/ Done
+Next == Produce \/ LexicalPars \/ BlankSep \/ InnerGroup \/ Descend \/ Group \/ Reject \/ Done
 Spec == Init /\ [][Next]_vars
 
 (* ---- the level arithmetic agrees with the derivation -------------------- *)
 DerivBare    == res = "bare"    => Valid(slot, child) /\ Bare(slot, child) /\ ~NeedsPars(slot, child)
 DerivPars    == res = "pars"    => Valid(slot, child) /\ NeedsPars(slot, child)
 DerivInner   == res = "inner"   => Valid(slot, child) /\ NeedsInner(slot, child) /\ ~NeedsPars(slot, child)
+DerivBlank   == res = "blank"   => Valid(slot, child) /\ NeedsBlank(slot, child) /\ ~NeedsPars(slot, child) /\ ~Bare(slot, child)
 DerivInvalid == res = "invalid" => ~Valid(slot, child) /\ ~NeedsPars(slot, child)
-TypeOK       == /\ res \in {"run", "bare", "pars", "inner", "invalid"}
+TypeOK       == /\ res \in {"run", "bare", "pars", "inner", "blank", "invalid"}
                 /\ Valid(slot, child) \in BOOLEAN /\ NeedsPars(slot, child) \in BOOLEAN
                 /\ (SlotCls(slot) = "load" => NT(slot) \in ExprNTs)
                 /\ (SlotCls(slot) = "store" => NT(slot) \in TargetNTs)
@@ -144,8 +153,8 @@ TypeOK       == /\ res \in {"run", "bare", "pars", "inner", "invalid"}
 (* ladder laws, for every slot against every kind (ASSUME: checked once)           *)
 Monotone(slot_) == SlotCls(slot_) = "load" =>
   \A c1, c2 \in ExprKinds \ TopKinds :
-     (Level(c1) <= Level(c2) /\ ~NeedsPars(slot_, c1) /\ ~Lexical(slot_, c2)) => ~NeedsPars(slot_, c2)
-AtomsNeverNeed(slot_) == \A c \in AtomKinds : Valid(slot_, c) /\ ~Lexical(slot_, c) => ~NeedsPars(slot_, c)
+     (Level(c1) <= Level(c2) /\ ~NeedsPars(slot_, c1) /\ ~Lexical(slot_, NT(slot_), c2)) => ~NeedsPars(slot_, c2)
+AtomsNeverNeed(slot_) == \A c \in AtomKinds : Valid(slot_, c) /\ ~Lexical(slot_, NT(slot_), c) => ~NeedsPars(slot_, c)
 (* left associativity: an operator is its own left operand without parentheses and never its own right      *)
 (* operand; `**` is the mirror image; comparisons and BoolOps never nest bare (chains / flattening)          *)
 Assoc == \A op \in BinOps :
